@@ -241,6 +241,28 @@ inline void energy_nat(const SplineCase<DIM>& c, std::vector<ld>& natP, ld& natT
   if (Tmax_out) *Tmax_out = Tmax;
 }
 
+// a spline object for case c that is, a quarter of the time, NOT fresh: it first held the same problem with one waypoint coordinate
+// moved (by a minute or a moderate amount), its trajectory was evaluated at several derivative orders (lazy tables built), and it was
+// then updated to c.  Relations that compare "the spline of c" with something else must hold for such an object just the same.
+template <int DIM, int S>
+inline typename SplineOf<DIM, S>::type build_spline_hist(Tape& t, Ctx& ctx, const SplineCase<DIM>& c, bool by_points = false) {
+  using Spline = typename SplineOf<DIM, S>::type;
+  if (!t.chance(1, 4)) return by_points ? Spline(c.time_points(), c.P, c.bc) : Spline(c.T, c.P, c.t0, c.bc);
+  SplineCase<DIM> old = c;
+  int r = t.range(0, c.N), d = t.range(0, DIM - 1);
+  double v = old.P(r, d);
+  double nv = t.flag() ? v + 0.25 * std::max(1e-3, c.M) : v + (1 + std::fabs(v)) * std::ldexp(1.0, -t.range(20, 44));
+  if (nv == v) nv = std::nextafter(v, INFINITY);
+  old.P(r, d) = nv;
+  Spline sp = by_points ? Spline(old.time_points(), old.P, old.bc) : Spline(old.T, old.P, old.t0, old.bc);
+  const auto& tr = sp.getTrajectory();
+  for (int k = 0; k <= t.range(0, 3); ++k) (void)tr.evaluate(old.t0 + old.T[0] * (0.125 + 0.25 * k), k);
+  if (t.flag()) (void)sp.getEnergy();
+  if (by_points) sp.update(c.time_points(), c.P, c.bc); else sp.update(c.T, c.P, c.t0, c.bc);
+  ctx.label("object:updated-after-evaluation-of-a-near-identical-problem");
+  return sp;
+}
+
 // the same problem with `extra` more segments appended (durations and waypoints of the first N segments bit-equal): the
 // "larger problem whose prefix is the new problem" an object may have solved before being reused for a truncated trajectory
 template <int DIM>
